@@ -242,8 +242,12 @@ static void emit_gamma(Rng & rng) {
         for (size_t i = 0; i < n; ++i) { std::gamma_distribution<double> d(params[i], 1.0); gs[i] = d(mir); }
         // the two-argument overload (returning the vector) does not instantiate: it calls the three-argument one,
         // which is declared after it and is not found by ADL for std/Eigen argument types (fixes/C08-5)
+#ifdef C08_DIRICHLET_2ARG
+        AI::ProbabilityVector out = AI::sampleDirichletDistribution(params, eng);
+#else
         AI::ProbabilityVector out(n);
         AI::sampleDirichletDistribution(params, eng, out);
+#endif
         std::vector<double> o(out.data(), out.data() + out.size());
         Line l; l << "C08" << "dir"; l.nums(params); l.nums(gs); l << "|"; l.nums(o); l << (eng == mir); l.emit();
     } else {
@@ -480,7 +484,7 @@ static void emit_sparse_model_witness() {
 }
 
 // ---------------------------------------------------------------- cases
-static const long kWitness = 19;
+static const long kWitness = 20;
 
 // exhaustive small scope: every vector k/8 with 2..4 entries (zeros anywhere, mass anywhere)
 static std::vector<std::vector<double>> g_small;
@@ -523,6 +527,14 @@ static void witness(Rng & rng, long idx) {
         case 16: emit_proj_nonfinite({std::numeric_limits<double>::quiet_NaN(), 0.5}); break;
         case 17: emit_proj_nonfinite({std::numeric_limits<double>::infinity(), 0.5, -1.0}); break;
         case 18: emit_proj({1.7e308, 3e307, -1.0, 0.0}); break;                   // overflow with a negative and a zero entry
+        case 19: {   // does the overload returning the sampled vector instantiate? (tools/props/c08.py defines the macro when the header declares the 3-argument overload first)
+#ifdef C08_DIRICHLET_2ARG
+            Line l; l << "C08" << "inst" << "sampleDirichletDistribution(params,generator)" << 1; l.emit();
+#else
+            Line l; l << "C08" << "inst" << "sampleDirichletDistribution(params,generator)" << 0; l.emit();
+#endif
+            break;
+        }
         case 14: emit_proj({1e308, 1e308}); break;                               // finite input whose sum overflows a double
         case 13: {                                                               // sparse: the same draw on the LAST stored row: the scan leaves the arrays
             std::vector<std::vector<double>> rows{{0.5, 0.5 - e21, 0.0}};
